@@ -329,7 +329,7 @@ func (fr *Frame) callBySpecCommon(fn *ssa.Function, sp *FuncSpec, sig *types.Sig
 	for _, c := range sp.Requires {
 		t, err := ex.safeEval(env, func() *Term { return env.boolOf(c.E) })
 		if err != "" {
-			fatal("contract error in requires of %s: %s", name, err)
+			contractFatal("contract error in requires of %s: %s", name, err)
 		}
 		ps := labelProps(c.Labels)
 		if len(ps) == 0 {
@@ -362,7 +362,7 @@ func (fr *Frame) callBySpecCommon(fn *ssa.Function, sp *FuncSpec, sig *types.Sig
 		for _, pc := range sp.Preserves {
 			_, err := ex.safeEval(env, func() *Term { keep = append(keep, env.locsOf(pc.E)...); return True })
 			if err != "" {
-				fatal("contract error in preserves of %s: %s", name, err)
+				contractFatal("contract error in preserves of %s: %s", name, err)
 			}
 		}
 		keep = append(keep, fr.unescapedLocals(args)...)
@@ -499,7 +499,7 @@ func (fr *Frame) callBySpecCommon(fn *ssa.Function, sp *FuncSpec, sig *types.Sig
 		var locs []Loc
 		_, err := ex.safeEval(env, func() *Term { locs = env.locsOf(m); return True })
 		if err != "" {
-			fatal("contract error in modifies of %s: %s", name, err)
+			contractFatal("contract error in modifies of %s: %s", name, err)
 		}
 		for _, l := range locs {
 			srt := memArrays[l.arr]
@@ -517,7 +517,7 @@ func (fr *Frame) callBySpecCommon(fn *ssa.Function, sp *FuncSpec, sig *types.Sig
 	for _, gs := range sp.GhostSets {
 		_, err := ex.safeEval(env, func() *Term { ghostLocs = append(ghostLocs, env.locsOf(gs.Loc)[0]); return True })
 		if err != "" {
-			fatal("contract error in ghostset of %s: %s", name, err)
+			contractFatal("contract error in ghostset of %s: %s", name, err)
 		}
 	}
 	for _, l := range ghostLocs {
@@ -541,7 +541,7 @@ func (fr *Frame) callBySpecCommon(fn *ssa.Function, sp *FuncSpec, sig *types.Sig
 	for _, c := range sp.Ensures {
 		t, err := ex.safeEval(post, func() *Term { return post.boolOf(c.E) })
 		if err != "" {
-			fatal("contract error in ensures of %s: %s", name, err)
+			contractFatal("contract error in ensures of %s: %s", name, err)
 		}
 		fr.assumeG(t)
 	}
@@ -553,7 +553,7 @@ func (fr *Frame) callBySpecCommon(fn *ssa.Function, sp *FuncSpec, sig *types.Sig
 		var v *Term
 		_, err := ex.safeEval(post, func() *Term { v = post.toGhostSort(post.eval(gs.Val), ghostSortOfArr(l.arr)); return True })
 		if err != "" {
-			fatal("contract error in ghostset of %s: %s", name, err)
+			contractFatal("contract error in ghostset of %s: %s", name, err)
 		}
 		fr.assumeG(Eq(Select(st.get(l.arr, memArrays[l.arr]), l.addr), v))
 	}
@@ -632,7 +632,7 @@ func (fr *Frame) loopInvariants(lc *loopCtx, st *State, over map[*ssa.Phi]*Term)
 		for _, c := range lc.spec.Invariants {
 			t, err := fr.ex.safeEval(env, func() *Term { return env.boolOf(c.E) })
 			if err != "" {
-				fatal("contract error in invariant of %s #%d: %s", funcName(fr.fn), lc.ordinal, err)
+				contractFatal("contract error in invariant of %s #%d: %s", funcName(fr.fn), lc.ordinal, err)
 			}
 			ps := labelProps(c.Labels)
 			if len(ps) == 0 {
@@ -771,7 +771,7 @@ func (fr *Frame) loopDecreases(lc *loopCtx, st *State, over map[*ssa.Phi]*Term) 
 			return True
 		})
 		if err != "" {
-			fatal("contract error in decreases of %s #%d: %s", funcName(fr.fn), lc.ordinal, err)
+			contractFatal("contract error in decreases of %s #%d: %s", funcName(fr.fn), lc.ordinal, err)
 		}
 		return t
 	}
